@@ -42,6 +42,10 @@ def scenarios(ctx):
         S("file.exists", "file", op="exists"),
         S("sharded.mem.raw.session", "sharded", op="store_new", strategy="in memory", enc="raw"),
         S("sharded.disk.gzip.session", "sharded", op="store_new", strategy="on disk", enc="gzip"),
+        # one shard, one minishard, every chunk stored out of identifier order: the
+        # writer's reordering buffer and temporary stores are in play for every chunk
+        S("sharded.disk.raw.one_minishard", "sharded", op="store_new", strategy="on disk", enc="raw",
+          bits=(0, 0, 0), order=(3, 0, 2, 1)),
         S("sharded.raw.fetch", "sharded", op="fetch", enc="raw"),
         S("sharded.gzip.fetch", "sharded", op="fetch", enc="gzip"),
         S("sharded.exists", "sharded", op="exists"),
@@ -56,6 +60,10 @@ def scenarios(ctx):
             S("sharded.disk.raw.session", "sharded", op="store_new", strategy="on disk", enc="raw"),
             S("sharded.cseg.session", "sharded", op="store_new", strategy="on disk", enc="raw",
               encoding="compressed_segmentation"),
+            S("sharded.mem.gzip.one_minishard", "sharded", op="store_new", strategy="in memory", enc="gzip",
+              bits=(0, 0, 0), order=(2, 3, 1, 0)),
+            S("sharded.disk.gzip.two_minishards", "sharded", op="store_new", strategy="on disk", enc="gzip",
+              bits=(0, 1, 0), order=(3, 2, 0, 1)),
         ]
     return out
 
